@@ -8,6 +8,16 @@ NOTE_COMMON = ("Trusted: z3 5.1 (cvc5 cross-check where noted), CPython 3.12 / N
                "exact-real arithmetic standing for IEEE-754 unless the check says Float64.")
 
 CHECKS = {
+ 'C04': dict(
+   text="Bounded symbolic proof of the source: solver.restriction (core.restrict, core.restrict_weights, grid and model "
+        "coarsening) and solver.prolongation (RegularGridProlongator) run on z3 Real terms with all widths, origin, model "
+        "and both fields symbolic; per (pattern 0..6, fine shape) z3 decides the bilinear identity <c,Rr> = <Pc,r> (hence "
+        "R = P^T entrywise on interior edges), weight row-sums = 1, every distinct bilinear weight >= 0, prolongation adds "
+        "and never writes boundary edges, coarse nodes = every second fine node, coarse eta/zeta = sum of children with "
+        "aliasing kept. All values; bounded in shape (quick coarsened dirs {4,6} x others {2,3}; thorough {4,6,8} x {2..5}).",
+   note=NOTE_COMMON+" Precondition from the code's invariant: the coarse correction has zero tangential boundary values. Any fork in searchsorted comparisons (not decided by h>0) aborts as inconclusive.",
+   technique="symbolic execution of the real transfer operators on z3 terms + SMT validity of a bilinear rational identity (reciprocal-variable encoding), NRA queries for weight signs",
+   ref="DESIGN.md §6 C04"),
  'C03': dict(
    text="Bounded symbolic proof of the source: the four smoother kernels run on z3 Real terms with core.solve replaced by a "
         "recording stub (fresh unknowns x, contract A_loc x = rhs). For every relaxed block z3 decides that A_loc x - rhs is "
